@@ -4,7 +4,7 @@ SPEC = dict(
     pkg="./store/throttler", files=["store/throttler/c36_verif_test.go"],
     case_preamble="Open Scope Z_scope.\n",
     rule="random Signal/Release/Reset/Delay sequences (1..50 operations quick, 1..80 thorough) over random delay tables of 0..8 entries, release rates "
-         "-3..MaxInt and idle timeout off/long, plus sequences with a 30-60 ms idle timeout, sleeps and timed Delay calls; a sequence is non-trivial when "
+         "-3..MaxInt and idle timeout off/long, plus sequences with a 30-60 ms idle timeout, sleeps and timed Delay calls; plus concurrent scenarios (a request asleep in Delay, then a Signal/Release/Reset, then a second Delay with or without a 60 ms context; oracle only); a sequence is non-trivial when "
          "a Signal arrives at the top level AND a Release is floored at zero (0 < level < rate); distinct by the JSON of configuration + operations",
     exhaustive=False,
     trusted=["Go timers and contexts: time.After/AfterFunc/Timer.Reset/Stop never fire early and context errors are as documented; the model's clock is the nominal duration of each sleep/Delay",
